@@ -48,11 +48,14 @@ func Families() []merklize.Hasher {
 		hashers.Mod{P: big.NewInt(65521), Name: "mod65521"},
 		hashers.Mod{P: big.NewInt(2147483647), Name: "mod2^31-1"},
 		hashers.Mod{P: m61, Name: "mod2^61-1"},
+		// Prime() hands out the stored modulus itself: in-place arithmetic on it corrupts the hasher
+		hashers.Mod{P: big.NewInt(2147483647), Name: "mod2^31-1-shared", ShareP: true},
+		hashers.Mod{P: new(big.Int).Set(constants.Q), SaltBytes: []byte("sp:"), Name: "salted-shared", ShareP: true},
 	}
 }
 
 func FamilyName(i int) string {
-	return []string{"poseidon", "salted-hashbytes", "wrapped-hash", "both", "mod65521", "mod2^31-1", "mod2^61-1"}[i]
+	return []string{"poseidon", "salted-hashbytes", "wrapped-hash", "both", "mod65521", "mod2^31-1", "mod2^61-1", "mod2^31-1-shared", "salted-shared"}[i]
 }
 
 // Counting counts every call that reaches the wrapped hasher.
@@ -251,6 +254,10 @@ func (e *Env) NewScen(in Input) *Scen {
 	if s.Cfg {
 		opts = append(opts, merklize.WithHasher(s.Rc))
 	}
+	if in.Hasher%2 == 0 {
+		// ignored because a document loader is given (documented); must not change anything
+		opts = append(opts, merklize.WithIPFSGateway("http://ipfs.invalid"), merklize.WithIPFSClient(nil))
+	}
 	s.Mz, s.Out = mzrun.Merklize(in.Doc, opts...)
 	e.Rep.Count("merklize:" + s.Out.Class)
 	if s.Out.Class == "panic" || s.Out.Class == "hang" {
@@ -327,6 +334,96 @@ func (e *Env) NewScen(in Input) *Scen {
 	return s
 }
 
+// primeCheck: encoding values must not change the configured hasher's modulus (a hasher may hand
+// out its stored modulus from Prime()).  Several negative Go ints are encoded in sequence first.
+func (e *Env) primeCheck(s *Scen) {
+	if !s.Cfg || s.Mz == nil || s.Out.Class != "ok" {
+		return
+	}
+	want := Families()[s.In.Hasher].Prime()
+	for _, v := range []any{int64(-3), int64(-70000), -5, int64(-1)} {
+		var h *big.Int
+		var err error
+		if iv, isInt := v.(int); isInt {
+			p, _ := s.opts().NewPath("urn:prime-check")
+			var ent merklize.RDFEntry
+			if ent, err = s.opts().NewRDFEntry(p, iv); err == nil {
+				h, err = ent.ValueMtEntry()
+			}
+			v = int64(iv)
+		} else {
+			var x merklize.Value
+			if x, err = s.Mz.MkValue(v); err == nil {
+				if i64, aerr := x.AsInt64(); aerr != nil || i64 != v.(int64) || !x.IsInt64() {
+					e.Rep.Fail(e.Prop+"-value-int64", "MkValue(int64).AsInt64 does not return the value", s.In)
+				}
+				h, err = x.MtEntry()
+			}
+		}
+		exp := new(big.Int).Add(want, big.NewInt(v.(int64)))
+		if err != nil || h == nil || h.Cmp(exp) != 0 {
+			e.Rep.Fail(e.Prop+"-negative-int-encoding", fmt.Sprintf("Go integer %v is not encoded as prime+v under the configured hasher (got %v, prime %v)", v, h, want), s.In)
+			break
+		}
+	}
+	if got := s.Rc.Inner.Prime(); got.Cmp(want) != 0 {
+		e.Rep.Fail(e.Prop+"-hasher-prime-mutated", fmt.Sprintf("the configured hasher's modulus changed from %v to %v while values were encoded", want, got), s.In)
+	}
+}
+
+// BuildChecks: a member path assembled with NewPath + Append + Prepend in every split, and copies of
+// a Path value mutated independently, must have the same parts, key and proof as the path built in one go.
+func (e *Env) BuildChecks(s *Scen, parts []any) {
+	n := len(parts)
+	one, err := s.opts().NewPath(parts...)
+	if err != nil || n == 0 {
+		return
+	}
+	k1, kerr := one.MtEntry()
+	if kerr != nil {
+		return
+	}
+	in := map[string]any{"scenario": s.In, "path": parts, "pk": 0, "family": "built"}
+	same := func(a []any) bool { return fmt.Sprintf("%#v", a) == fmt.Sprintf("%#v", parts) }
+	probe := e.Cfg.Rng.Intn(n + 1)
+	for i := 0; i <= n; i++ {
+		for j := i; j <= n; j++ {
+			p, _ := s.opts().NewPath(parts[i:j]...)
+			aerr := p.Append(parts[j:]...)
+			perr := p.Prepend(parts[:i]...)
+			e.Rep.Count("path-built")
+			k, err := p.MtEntry()
+			switch {
+			case aerr != nil || perr != nil:
+				e.Rep.Fail(e.Prop+"-path-build-error", "Append / Prepend of string / int parts failed", in)
+			case !same(p.Parts()):
+				e.Rep.Fail(e.Prop+"-path-build-order", fmt.Sprintf("NewPath(%v).Append(%v).Prepend(%v) has parts %v", parts[i:j], parts[j:], parts[:i], p.Parts()), in)
+			case err != nil || k.Cmp(k1) != 0:
+				e.Rep.Fail(e.Prop+"-path-build-key", fmt.Sprintf("NewPath(%v).Append(%v).Prepend(%v) hashes differently from the path built in one go", parts[i:j], parts[j:], parts[:i]), in)
+			}
+			if i == probe && (j == i || j == n) {
+				e.ProofPath(s, 0, p, "built")
+			}
+			// copies mutated independently: the original must not change
+			if j < n || i > 0 {
+				q, _ := s.opts().NewPath(parts[i:j]...)
+				_ = q.Append(parts[j:]...)
+				before := fmt.Sprintf("%#v", q.Parts())
+				c1, c2 := q, q
+				_ = c1.Prepend("urn:alias:a", 7)
+				_ = c2.Append("urn:alias:b")
+				_ = c1.Prepend("urn:alias:c")
+				if fmt.Sprintf("%#v", q.Parts()) != before {
+					e.Rep.Fail(e.Prop+"-path-aliasing", fmt.Sprintf("mutating copies of a Path changed the original: %s -> %#v", before, q.Parts()), in)
+				}
+				if len(c1.Parts()) != len(q.Parts())+3 || fmt.Sprint(c1.Parts()[:3]) != fmt.Sprint([]any{"urn:alias:c", "urn:alias:a", 7}) {
+					e.Rep.Fail(e.Prop+"-path-build-order", fmt.Sprintf("Prepend(a, 7) then Prepend(c) on a copy gives %v", c1.Parts()), in)
+				}
+			}
+		}
+	}
+}
+
 // LocalRng makes the scenario's random choices depend only on its stored seed.
 func (e *Env) LocalRng(seed int64) func() {
 	old := e.Cfg.Rng
@@ -337,6 +434,7 @@ func (e *Env) LocalRng(seed int64) func() {
 // Close runs the path named by a replayed failing input (if any), restores the package
 // default hasher and evaluates the counting oracle.
 func (e *Env) Close(s *Scen) {
+	e.primeCheck(s)
 	if s.In.ReplayPath != nil && s.Out.Class == "ok" && s.NoCoq == "" {
 		e.Proof(s, s.In.ReplayPK, s.In.ReplayPath, "replay")
 		e.EntryStep(s, s.In.ReplayPK, s.In.ReplayPath)
@@ -1078,6 +1176,9 @@ func (e *Env) c02Scenario(in Input) *Scen {
 		}
 		e.Proof(s, pk, v.Parts, "member")
 		e.EntryStep(s, pk, v.Parts)
+		if len(v.Parts) <= 5 {
+			e.BuildChecks(s, v.Parts)
+		}
 	}
 	// non-member families
 	nm := e.NonMembers(s, e.Cfg.Pick(2, 4))
@@ -1224,7 +1325,7 @@ func Run(cfg *common.Config) (*common.Report, error) {
 		return rep, sh.Write("C02")
 	}
 	g := docgen.New(cfg.Rng)
-	hs := []int{0, 0, 1, 4, 5}
+	hs := []int{0, 0, 1, 4, 5, 7, 8}
 	n := cfg.Pick(90, 1500)
 	for i := 0; i < n; i++ {
 		var doc *docgen.Doc
